@@ -21,13 +21,18 @@ struct Lsn {
     log: Mutex<Vec<(u8, u8)>>, // (new state, prev)
 }
 impl StateChangeListener for Lsn {
+    // (a listener may be slow: in a stress replay the sync point sleeps for a pseudo-random time, which widens the
+    // windows in which other threads meet a breaker in the middle of a transition)
     fn on_transform_to_closed(&self, prev: State, _rule: Arc<cb::Rule>) {
+        sentinel_core::verif::sync::sync_point(9);
         self.log.lock().unwrap().push((0, st_code(prev)));
     }
     fn on_transform_to_open(&self, prev: State, _rule: Arc<cb::Rule>, _s: Option<Arc<Snapshot>>) {
+        sentinel_core::verif::sync::sync_point(9);
         self.log.lock().unwrap().push((2, st_code(prev)));
     }
     fn on_transform_to_half_open(&self, prev: State, _rule: Arc<cb::Rule>) {
+        sentinel_core::verif::sync::sync_point(9);
         self.log.lock().unwrap().push((1, st_code(prev)));
     }
     fn on_circuit_breaker_drop(&self, _prev: State, _rule: Arc<cb::Rule>) {}
@@ -47,7 +52,8 @@ impl sentinel_core::base::StatSlot for RtSlot {
 }
 
 /// shape: p0 = situation (0: two completions that each would open the breaker; 1: two requests after the retry timeout;
-/// 2: a probe completion racing a new request and a stale failing completion), p1 = preemption bound, p2 = strategy (1 error ratio, 2 error count)
+/// 2: a probe completion racing a new request and a stale failing completion; 3: a failing probe racing a new request;
+/// 4: an opening failure racing a new request), p1 = preemption bound, p2 = strategy (1 error ratio, 2 error count)
 pub fn c16_breaker_race(s: Shape) {
     let res = String::from("c16");
     let lsn = Arc::new(Lsn { log: Mutex::new(Vec::new()) });
@@ -79,6 +85,8 @@ pub fn c16_breaker_race(s: Shape) {
         e.exit();
     };
     let br = cb::get_breakers_of_resource(&res);
+    // position in the listener log at which the race starts (the clock stands still during the race)
+    let mut race_from = usize::MAX;
     match s.p[0] {
         0 => {
             let e1 = enter(&chain, &res).unwrap();
@@ -125,6 +133,53 @@ pub fn c16_breaker_race(s: Shape) {
             vrt::check(l.len() == 2 && l[1] == (1, 2), "C16:half-open-announced-not-exactly-once");
             vrt::check(st_code(br[0].current_state()) == 1, "C16:not-half-open-with-probe-in-flight");
         }
+        3 => {
+            // the probe fails (Half-Open -> Open, with a fresh retry timeout) while a new request arrives:
+            // Half-Open rejects it, and so does Open before the new timeout
+            let e1 = enter(&chain, &res).unwrap();
+            fail(e1);
+            t += 400;
+            clock::set_ns(t * 1_000_000);
+            let probe = enter(&chain, &res).unwrap();
+            vrt::check(st_code(br[0].current_state()) == 1, "C16:setup-not-half-open");
+            race_from = lsn.log.lock().unwrap().len();
+            vrt::threads(s.p[1] as u32);
+            let (c2, r2) = (chain.clone(), res.clone());
+            let h1 = std::thread::spawn(move || {
+                vrt::start_line(2);
+                fail(probe)
+            });
+            let h2 = std::thread::spawn(move || {
+                vrt::start_line(2);
+                EntryBuilder::new(r2).with_slot_chain(c2).build().ok()
+            });
+            h1.join().unwrap();
+            let newcomer = h2.join().unwrap();
+            vrt::cover("raced");
+            vrt::check(newcomer.is_none(), "C16:admitted-while-half-open-or-open-before-the-retry-timeout");
+            vrt::check(st_code(br[0].current_state()) == 2, "C16:not-open-after-failed-probe");
+        }
+        4 => {
+            // a failing completion opens the breaker while a new request arrives: admitted if it came first,
+            // rejected afterwards - never admitted as a probe
+            let e1 = enter(&chain, &res).unwrap();
+            race_from = lsn.log.lock().unwrap().len();
+            vrt::threads(s.p[1] as u32);
+            let (c2, r2) = (chain.clone(), res.clone());
+            let h1 = std::thread::spawn(move || {
+                vrt::start_line(2);
+                fail(e1)
+            });
+            let h2 = std::thread::spawn(move || {
+                vrt::start_line(2);
+                EntryBuilder::new(r2).with_slot_chain(c2).build().ok()
+            });
+            h1.join().unwrap();
+            let newcomer = h2.join().unwrap();
+            vrt::cover("raced");
+            vrt::check(st_code(br[0].current_state()) == 2, "C16:not-open-after-failure");
+            let _ = newcomer;
+        }
         _ => {
             // stale entry admitted while closed, then the breaker opens, then a probe is admitted
             let stale = enter(&chain, &res).unwrap();
@@ -158,7 +213,15 @@ pub fn c16_breaker_race(s: Shape) {
     // in every situation: the listener saw a path of the state machine and the breaker is where that path ends
     let l = lsn.log.lock().unwrap();
     let mut cur = 0u8;
-    for (new, prev) in l.iter() {
+    let mut opened_in_race = false;
+    for (k, (new, prev)) in l.iter().enumerate() {
+        if k >= race_from {
+            // the retry timeout cannot elapse while the clock stands still
+            vrt::check(!(opened_in_race && *new == 1), "C16:half-open-before-the-retry-timeout");
+            if *new == 2 {
+                opened_in_race = true;
+            }
+        }
         vrt::check(*prev == cur, "C16:transition-announced-with-wrong-previous-state");
         let legal = matches!((cur, *new), (0, 2) | (2, 1) | (1, 0) | (1, 2));
         vrt::check(legal, "C16:illegal-transition");
